@@ -116,3 +116,103 @@ Definition an_with_name (nn : string) (n : node) : node :=
   | NSeq i els => NSeq (upd i) els
   | NSet i els => NSet (upd i) els
   end.
+
+(* ---- round 4: statements about the FINAL merged document, and computable guards ---- *)
+(* A document of the property's quantifier, set members included (computable; implies
+   an_doc_ok): no container, hash key or set member carries an anchor name; keys and set
+   members are Scalars.  Anchored nodes are then exactly Scalars that are hash values or
+   array elements (the places). *)
+Fixpoint an_tidy (d : node) : bool :=
+  match d with
+  | NLeaf _ _ => true
+  | NMap _ kvs =>
+      an_noname d && forallb (fun kv => is_leaf (fst kv) && an_noname (fst kv) && an_tidy (snd kv)) kvs
+  | NSeq _ els => an_noname d && forallb an_tidy els
+  | NSet _ els => an_noname d && forallb (fun e => is_leaf e && an_noname e) els
+  end.
+Definition an_doc_tidy (d : node) : bool := negb (is_leaf d) && an_tidy d.
+
+(* every Scalar of the document (key, value, element, set member, a scalar root) that carries
+   the name a IS the node x *)
+Definition all_scalars_read (a : string) (x : node) (d : node) : Prop :=
+  forall p, In p (an_all d) -> is_leaf p = true -> c10_name p = Some a -> p = x.
+
+(* no Scalar of the document carries the name a *)
+Definition no_scalar_named (a : string) (d : node) : Prop :=
+  forall p, In p (an_all d) -> is_leaf p = true -> c10_name p <> Some a.
+
+(* one anchored Scalar per name in the whole document *)
+Definition an_doc_unique (d : node) : Prop :=
+  forall n k a, In n (an_all d) -> In k (an_all d) -> is_leaf n = true -> is_leaf k = true ->
+    c10_name n = Some a -> c10_name k = Some a -> n = k.
+
+(* structural equality of trees, computable *)
+Definition c10_opt_eqb (a b : option string) : bool :=
+  match a, b with
+  | None, None => true
+  | Some x, Some y => String.eqb x y
+  | _, _ => false
+  end.
+Definition c10_info_eqb (a b : info) : bool :=
+  N.eqb (oid a) (oid b) && c10_opt_eqb (anchor a) (anchor b) &&
+  Bool.eqb (has_anchor_attr a) (has_anchor_attr b) && c10_opt_eqb (tag a) (tag b).
+Definition c10_pyval_eqb (a b : pyval) : bool :=
+  match a, b with
+  | PNone, PNone => true
+  | PBool x, PBool y => Bool.eqb x y
+  | PInt x, PInt y => Z.eqb x y
+  | PFloat q r, PFloat q' r' =>
+      Z.eqb (QArith_base.Qnum q) (QArith_base.Qnum q') && Pos.eqb (QArith_base.Qden q) (QArith_base.Qden q') &&
+      String.eqb r r'
+  | PStr x, PStr y => String.eqb x y
+  | POther x, POther y => String.eqb x y
+  | _, _ => false
+  end.
+Fixpoint c10_node_eqb (a b : node) {struct a} : bool :=
+  match a, b with
+  | NLeaf i v, NLeaf j w => c10_info_eqb i j && c10_pyval_eqb v w
+  | NMap i ka, NMap j kb =>
+      c10_info_eqb i j &&
+      (fix go (l m : list (node * node)) : bool :=
+         match l, m with
+         | [], [] => true
+         | (k, v) :: l', (k', v') :: m' => c10_node_eqb k k' && c10_node_eqb v v' && go l' m'
+         | _, _ => false
+         end) ka kb
+  | NSeq i ea, NSeq j eb =>
+      c10_info_eqb i j &&
+      (fix go (l m : list node) : bool :=
+         match l, m with
+         | [], [] => true
+         | x :: l', y :: m' => c10_node_eqb x y && go l' m'
+         | _, _ => false
+         end) ea eb
+  | NSet i ea, NSet j eb =>
+      c10_info_eqb i j &&
+      (fix go (l m : list node) : bool :=
+         match l, m with
+         | [], [] => true
+         | x :: l', y :: m' => c10_node_eqb x y && go l' m'
+         | _, _ => false
+         end) ea eb
+  | _, _ => false
+  end.
+
+(* the boolean form of one_node_per_name ... *)
+Definition c10_named_same (n m : node) : bool :=
+  match c10_name n, c10_name m with
+  | Some a, Some b => negb (String.eqb a b) || c10_node_eqb n m
+  | _, _ => true
+  end.
+Definition one_node_per_name_b (d : node) : bool :=
+  forallb (fun n => forallb (c10_named_same n) (places d)) (places d).
+
+(* ... and of an_heap_ok *)
+Definition c10_oid_same (n m : node) : bool :=
+  negb (N.eqb (node_oid n) (node_oid m)) || c10_node_eqb n m.
+Definition an_heap_ok_b (d : node) : bool :=
+  forallb (fun n => forallb (c10_oid_same n) (an_all d)) (an_all d).
+
+(* the guard of the rename / unique-names theorems, one computable test per pair *)
+Definition c10_pair_guard (l r : node) : bool :=
+  an_doc_tidy l && an_doc_tidy r && one_node_per_name_b l && one_node_per_name_b r && an_heap_ok_b r.
